@@ -406,7 +406,7 @@ func (e *Engine) patternsMulti(bvs []*Term, body *Term) [][]*Term {
 		if t.Op == "forall" || t.Op == "exists" {
 			return
 		}
-		if t.Op == "app" || t.Op == "select" {
+		if t.Op == "app" {
 			newCover := false
 			for _, a := range t.Args {
 				for _, b := range bvs {
